@@ -38,7 +38,7 @@ func Lstat(name string) (fs.FileInfo, error) {
 	if n, e := W.lookup(p); e == 0 && n.link != "" {
 		seq, _ := W.begin(OpStat, p)
 		W.log(&TraceEv{Seq: seq, Op: OpStat, Path: p, Res: "ok", Digest: "link"})
-		return fileInfo{name: filepath.Base(p), size: int64(len(n.link)), mode: fs.ModeSymlink | 0o777, mt: W.now()}, nil
+		return fileInfo{name: filepath.Base(p), size: int64(len(n.link)), mode: fs.ModeSymlink | 0o777, mt: W.now(), id: n}, nil
 	}
 	return W.stat(name)
 }
@@ -69,6 +69,57 @@ func Symlink(oldname, newname string) error {
 	}
 	W.fs[p] = &node{link: oldname, mode: fs.ModeSymlink | 0o777}
 	return nil
+}
+
+// Link creates newname as a hard link to oldname (another name of the same file).
+func Link(oldname, newname string) error {
+	enter()
+	defer leave()
+	if W == nil {
+		return os.Link(oldname, newname)
+	}
+	p, ev, err := W.simple(OpMkdir, newname)
+	defer W.log(ev)
+	if err != nil {
+		return &os.LinkError{Op: "link", Old: oldname, New: newname, Err: err.(*fs.PathError).Err}
+	}
+	p = W.resolveNoFollow(newname)
+	src, e := W.lookup(W.resolveNoFollow(oldname))
+	if e == 0 {
+		// the kernel looks up the old name, then walks to the parent of the new name, then judges
+		if parent, e3 := W.lookup(filepath.Dir(p)); e3 != 0 {
+			e = e3
+		} else if !parent.dir {
+			e = syscall.ENOTDIR
+		} else if _, e2 := W.lookup(p); e2 == 0 {
+			e = syscall.EEXIST
+		} else if e2 != syscall.ENOENT {
+			e = e2
+		} else if src.dir {
+			e = syscall.EPERM
+		} else if W.deviceOf(p) != W.deviceOf(W.resolveNoFollow(oldname)) {
+			e = syscall.EXDEV
+		}
+	}
+	ev.Res = errnoName(e)
+	if e != 0 {
+		return &os.LinkError{Op: "link", Old: oldname, New: newname, Err: e}
+	}
+	W.fs[p] = src
+	return nil
+}
+
+// SameFile reports whether two FileInfos describe the same file (same inode), as os.SameFile does.
+func SameFile(a, b fs.FileInfo) bool {
+	fa, oka := a.(fileInfo)
+	fb, okb := b.(fileInfo)
+	if oka && okb {
+		return fa.id != nil && fa.id == fb.id
+	}
+	if oka || okb {
+		return false
+	}
+	return os.SameFile(a, b)
 }
 
 func Readlink(name string) (string, error) {
@@ -660,7 +711,7 @@ func (f *File) Stat() (fs.FileInfo, error) {
 	if f.real != nil {
 		return f.real.Stat()
 	}
-	return fileInfo{name: filepath.Base(f.path), size: int64(len(f.n.data)), mode: f.n.mode, mt: f.w.now()}, nil
+	return fileInfo{name: filepath.Base(f.path), size: int64(len(f.n.data)), mode: f.n.mode, mt: f.w.now(), id: f.n}, nil
 }
 
 func (f *File) Seek(offset int64, whence int) (int64, error) {
